@@ -6,6 +6,15 @@ _TRUST = ("Trusted: TLC, the author's reading of the property statement as writt
           "the Python driver that renders cases and projects results (kept free of semantics: it never decides what a program means). ")
 
 PROPS = {
+    "C01": dict(
+        claimed=True, level="model_checking",
+        technique="refinement check against the TLA+ language semantics NslSem: each generated (program, input) case is one TLC behaviour of the abstract machine (with frame-isolation / call-discipline properties) whose prescribed outcome is compared exactly with the real compiler + VM run",
+        text="A seeded type-directed generator produces scalar-core programs as data (all operators printed with minimal parentheses, compound assignment, ++/--, "
+             "nested loops with break/continue, early return, arrays, structs, globals, calls); TLC executes spec/NslSem.tla on every case - the language rules are "
+             "TLA+ actions, typing comes from NslTypes - and prints the prescribed return value and globals; the driver runs the real compiler and VM and compares "
+             "exactly on dyadic rationals. What the statement leaves open is 'ood' in the specification and not judged. Bounded, seeded exploration of programs x "
+             "inputs with a model-checked reference: model checking of the reference plus conformance of the implementation.",
+        note=_TRUST + "Programs are bounded in size; floats are exact dyadic rationals (no rounding behaviour is checked); integers beyond 2^30 are out of the checked domain."),
     "C08": dict(
         claimed=True, level="model_checking",
         technique="TLA+ operator-precedence machine (NslParse) enumerated exhaustively by TLC; every enumerated case replayed into the real parser/compiler/VM (spec->code conformance)",
